@@ -27,6 +27,23 @@ type ExprCtx struct {
 	Values    map[string]model.AV
 	nName     int
 	nValue    int
+	nameFmt   string
+	valueFmt  string
+}
+
+// Style draws the spelling of the placeholder keys of this context: mostly
+// #n1 / :v1, sometimes keys that start with a digit (what the SDK expression
+// builders emit: #0, :0), with an underscore, or that mix letter case.
+func (c *ExprCtx) Style(t *rapid.T) *ExprCtx {
+	switch rapid.IntRange(0, 11).Draw(t, "placeholderStyle") {
+	case 4:
+		c.nameFmt, c.valueFmt = "#%d", ":%d"
+	case 6:
+		c.nameFmt, c.valueFmt = "#_%d", ":_%d"
+	case 8:
+		c.nameFmt, c.valueFmt = "#N%dx", ":V%dX_"
+	}
+	return c
 }
 
 // NewExprCtx returns a context over the item.
@@ -60,7 +77,11 @@ func (c *ExprCtx) NameTok(t *rapid.T, name string) string {
 		}
 	}
 	c.nName++
-	k := fmt.Sprintf("#n%d", c.nName)
+	f := c.nameFmt
+	if f == "" {
+		f = "#n%d"
+	}
+	k := fmt.Sprintf(f, c.nName)
 	c.Names[k] = name
 	return k
 }
@@ -68,9 +89,32 @@ func (c *ExprCtx) NameTok(t *rapid.T, name string) string {
 // Val allocates a value placeholder.
 func (c *ExprCtx) Val(v model.AV) model.ValueRef {
 	c.nValue++
-	k := fmt.Sprintf(":v%d", c.nValue)
+	f := c.valueFmt
+	if f == "" {
+		f = ":v%d"
+	}
+	k := fmt.Sprintf(f, c.nValue)
 	c.Values[k] = v
 	return model.ValueRef{Name: k}
+}
+
+// reuseVal now and then hands out a value placeholder that an earlier action of
+// the same expression already uses (one :value operand of several actions).
+func (c *ExprCtx) reuseVal(t *rapid.T, fits func(model.AV) bool) (model.ValueRef, bool) {
+	var ks []string
+	for k, v := range c.Values {
+		if fits(v) {
+			ks = append(ks, k)
+		}
+	}
+	if len(ks) == 0 {
+		return model.ValueRef{}, false
+	}
+	sort.Strings(ks)
+	if rapid.IntRange(0, 3).Draw(t, "reuseValue") != 2 {
+		return model.ValueRef{}, false
+	}
+	return model.ValueRef{Name: rapid.SampledFrom(ks).Draw(t, "reusedValue")}, true
 }
 
 func sortedNames(it model.Item) []string {
@@ -461,8 +505,20 @@ func (c *ExprCtx) Update(t *rapid.T, cfg UpdateCfg) model.Update {
 		case "REMOVE":
 			act = model.Action{Path: target.P}
 		case "ADD":
+			if ref, ok := c.reuseVal(t, func(v model.AV) bool {
+				return (v.T == "N" || v.T == "SS" || v.T == "NS" || v.T == "BS") && (!target.Found || v.T == target.V.T)
+			}); ok && !bad {
+				act = model.Action{Path: target.P, Value: ref}
+				break
+			}
 			act = model.Action{Path: target.P, Value: c.Val(c.addOperand(t, target, bad))}
 		case "DELETE":
+			if ref, ok := c.reuseVal(t, func(v model.AV) bool {
+				return (v.T == "SS" || v.T == "NS" || v.T == "BS") && (!target.Found || v.T == target.V.T)
+			}); ok && !bad {
+				act = model.Action{Path: target.P, Value: ref}
+				break
+			}
 			act = model.Action{Path: target.P, Value: c.Val(c.deleteOperand(t, target, bad))}
 		}
 		targets = append(targets, target.P)
@@ -565,6 +621,9 @@ func (c *ExprCtx) setValue(t *rapid.T, target pathInfo, cfg UpdateCfg, bad bool)
 	}
 	switch {
 	case mode < 4:
+		if ref, ok := c.reuseVal(t, func(model.AV) bool { return true }); ok {
+			return ref
+		}
 		return c.Val(AV(t, o, "setV"))
 	case mode < 5:
 		// copy from another attribute
